@@ -165,3 +165,19 @@ func MalformedEnvelopes(r *vlib.Rng, valid Tx) []Tx {
 	}
 	return out
 }
+
+// Transplant returns a transaction made of the 65 signature bytes of sigFrom followed by a
+// different, well-formed payload (fresh nonce, right chain id). Its signer is whatever address
+// the signature recovers to over the new payload (with overwhelming probability nobody); it must
+// be refused like any other transaction of an unknown sender, and it must not change how sigFrom
+// itself is treated, before or afterwards.
+func (u *Universe) Transplant(sigFrom Tx, nonce uint64, msg *shmsg.Message, label string) Tx {
+	donor, err := base64.RawURLEncoding.DecodeString(string(sigFrom.Bytes))
+	if err != nil || len(donor) < 65 {
+		return RawTx("transplant-undecodable-donor", sigFrom.Bytes)
+	}
+	fresh := u.SignTx(0, nonce, ChainID, msg, label)
+	body, _ := base64.RawURLEncoding.DecodeString(string(fresh.Bytes))
+	out := append(append([]byte{}, donor[:65]...), body[65:]...)
+	return RawTx("transplant:"+label, []byte(base64.RawURLEncoding.EncodeToString(out)))
+}
